@@ -28,7 +28,8 @@ theorem snapshot_sound_iter : snapshot_sound_iter_statement := by
   have hvi : c.ValidI := ⟨hv.1, hv.2 hit⟩
   have hok := shardsOk_of_noErr c hit hvi.2 hne
   have hJ := fresh_J c hvi hit hio hok as s hnr hr hd
-  obtain ⟨hny, hst, _⟩ := snapshot_fields c hv hio as s hnr hr hd
+  obtain ⟨hny, hF⟩ := snapshot_fields c hv hio as s hnr hr hd
+  obtain ⟨hst, _⟩ := hF (Or.inl hit)
   have hse := sound_of_J c hit hvi.2 hok s hJ
   have hstep : s.snap.step = stepOf c s.numYielded := by rw [hst]; rfl
   rw [hstep] at hse
